@@ -598,7 +598,7 @@ class FA:
         if k == "unop":
             a = self.op_term(rv["a"], point)
             if rv["op"] == "PtrMetadata":
-                return set_ty(mk("len", self.pointee(a) if a.op == "ref" else mk("mem", a)), U)
+                return self.len_term(self.pointee(a) if a.op == "ref" else mk("mem", a))
             return set_ty(mk("un", rv["op"], a), ty_of(a))
         if k == "cast":
             a = self.op_term(rv["op"], point)
@@ -645,7 +645,7 @@ class FA:
             m = PURE[callee]
             if m == "len":
                 a0 = args[0]
-                return set_ty(mk("len", self.pointee(a0)), U)
+                return self.len_term(self.pointee(a0))
             return set_ty(mk("call", callee, args), dty)
         if callee in PURE_OBS:
             # pure observer of its receiver: identity = (callee, current VALUE of the receiver object), no site,
@@ -653,6 +653,31 @@ class FA:
             vals = tuple(self.read_obj(a.args[0], point) if a.op == "ref" else a for a in args)
             return set_ty(mk("call", callee, vals), dty)
         return set_ty(mk("call", callee, args, id(self.fn), b), dty)
+
+    def len_term(self, obj):
+        """Length of a slice object.  For a sub-slice produced by Index::index(base, range) (which has returned, so the
+        range was in bounds) the length is determined by the range: ..e -> e ; a..b -> b - a ; a.. -> len(base) - a."""
+        x = obj
+        while x.op in ("mem", "memval", "ref"):
+            x = x.args[0]
+        if x.op == "call" and x.args[0] in SLICE_INDEX and len(x.args[1]) == 2:
+            r = x.args[1][1]
+            if r.op == "agg" and r.args[0].startswith("core::ops::Range"):
+                name = r.args[0].rsplit("::", 1)[1]
+                ops = r.args[3]
+                if name == "RangeTo":
+                    return ops[0]
+                if name == "Range":
+                    t = set_ty(mk("bin", "Sub", ops[1], ops[0]), U)
+                    CHECKED.add(t)
+                    return t
+                if name == "RangeFrom":
+                    base = x.args[1][0]
+                    bl = self.len_term(self.pointee(base) if base.op == "ref" else mk("mem", base))
+                    t = set_ty(mk("bin", "Sub", bl, ops[0]), U)
+                    CHECKED.add(t)
+                    return t
+        return set_ty(mk("len", obj), U)
 
     def call_args(self, b):
         blk = self.fn.blocks[b]
@@ -744,6 +769,11 @@ PURE = {
     "core::str::<impl str>::len": "len",
 }
 
+
+SLICE_INDEX = {
+    "core::slice::index::<impl core::ops::Index<I> for [T]>::index",
+    "core::slice::index::<impl core::ops::IndexMut<I> for [T]>::index_mut",
+}
 
 # Observers: result depends only on the value of the receiver (crate fns: checked to be store-free single-expression
 # bodies by rule U-obs; tinyvec/core ones by their documented contract).
